@@ -128,6 +128,7 @@ func (c *Ctx) closureEnvArgs(cl *Closure, args []Val) []Val { return args }
 func (c *Ctx) doCallVals(st *State, fr *Frame, cc *ssa.CallCommon, instr ssa.Instruction, fnv Val, args []Val, k func(*State, Val)) {
 	pos := instr.Pos()
 	if bi, ok := fnv.(*ssa.Builtin); ok {
+		c.atCallClauses(st, fr, cc, instr, fnv, args)
 		k(st, c.builtin(st, fr, bi, cc, args, pos))
 		return
 	}
